@@ -19,6 +19,7 @@ EXPLANATION = (
     "hence in [0, 1]; (D4) the function returns (flags, mute) and decompress_destripe_cbin unpacks in that order, calling "
     "with data and full-scale vector cut by the same column bound; Reader.range_volts = sample2volts * max-int. "
     "'0 on every flagged sample' and the taper reach are numeric facts about the cosine window and are NOT decided."
+    ' (D6) work arrays allocated before a loop and re-used by every iteration: an iteration that rewrites only part of the buffer does not read beyond the rewritten range (stale rows of the previous channel block). D1 also understands counts accumulated over channel blocks.'
 )
 ASSUMPTIONS = [
     "scipy.signal.windows.cosine is non-negative; scipy.signal.convolve of non-negative inputs is non-negative (model table)",
